@@ -2,6 +2,7 @@ package main
 
 import (
 	"context"
+	"encoding/binary"
 	"encoding/hex"
 	"fmt"
 	"os"
@@ -369,11 +370,69 @@ func (e *crashEngine) recover(img image) (res string) {
 	index.RemoveSavedBuckets(ip)
 	r2 := "open-err"
 	st2, err := store.OpenStore(context.Background(), kind, dp, ip, imm, opts...)
+	drain := "na"
 	if err == nil {
 		r2 = readAll(st2, append(append([]string{}, e.keys...), "1208fefefefe01020304"))
+		// C11 on a recovered store: remove everything, leave the files behind, collect; every non-current primary file must be
+		// released although the crash may have left records no index entry ever named
+		if mp, ok := st2.Primary().(*mhprimary.MultihashPrimary); ok && !imm && img.tear == "" {
+			st2.VerifAttachGC()
+			derr := ""
+			for _, k := range append(append([]string{}, e.keys...), "1208fefefefe01020304") {
+				kb, _ := hex.DecodeString(k)
+				if _, err := st2.Remove(kb); err != nil {
+					derr = "rm-err"
+				}
+			}
+			st2.Flush()
+			pk2, _ := hex.DecodeString("1208fdfdfdfd01020304")
+			for i := 0; i < 2; i++ {
+				st2.Put(pk2, []byte{0xd0, byte(i)})
+				st2.Flush()
+			}
+			for round := 0; round < 8; round++ {
+				if _, err := mp.VerifGC(context.Background(), 50, 0); err != nil {
+					derr = "pgc-err"
+				}
+				st2.Flush()
+				if _, _, err := st2.Index().VerifGC(context.Background(), true); err != nil && derr == "" {
+					derr = "igc-err"
+				}
+			}
+			st2.Flush()
+			var parts []string
+			ents, _ := os.ReadDir(dir)
+			for _, en := range ents {
+				n := en.Name()
+				if strings.HasPrefix(n, "storethehash.data.") && !strings.HasSuffix(n, ".info") && !strings.HasSuffix(n, ".tmp") {
+					if data, err := os.ReadFile(filepath.Join(dir, n)); err == nil {
+						// free and in-use bytes as the collector counts them (record sizes without the 4-byte prefix)
+						var free, busy int64
+						for pos := 0; pos+4 <= len(data); {
+							sz := binary.LittleEndian.Uint32(data[pos:])
+							if sz&0x80000000 != 0 {
+								sz ^= 0x80000000
+								free += int64(sz)
+							} else {
+								busy += int64(sz)
+							}
+							pos += 4 + int(sz)
+						}
+						parts = append(parts, fmt.Sprintf("%s:%d:%d:%d", strings.TrimPrefix(n, "storethehash.data."), len(data), free, busy))
+					}
+				}
+			}
+			drain = strings.Join(parts, ",")
+			if drain == "" {
+				drain = "none"
+			}
+			if derr != "" {
+				drain += "!" + derr
+			}
+		}
 		st2.Close()
 	}
-	return fmt.Sprintf("%s open=ok r0=%s post=%s r1=%s r2=%s", head, r0, post, r1, r2)
+	return fmt.Sprintf("%s open=ok r0=%s post=%s r1=%s r2=%s drain=%s", head, r0, post, r1, r2, drain)
 }
 
 func orNone(s string) string {
